@@ -54,6 +54,7 @@ func c03TouchesChildren(f *ssa.Function) []ssa.Instruction {
 }
 
 func c03(r *core.Run) {
+	defer c03Extra(r)
 	p := r.P
 	r.Explanation = "Decides on every path: patRouter.Handle reaches Tree.Add only for one of the seven HTTP methods (the validator is evaluated on each constant) and a path starting with '/', registers a fresh tree under the method it was asked for; Tree.Add reaches the recursive insert only for a rooted route and a non-nil item; every store to node.item outside the constructor is guarded by item == nil of that very node and the other arm returns an error; the child selector returns slot 1 exactly for ':'-prefixed segments, only selector/iterator/constructor touch node.children, the iterator visits slot 0 before slot 1 and stops at the first hit; match treats exactly the ':'-prefixed keys as parameters (key = pat[1:], value = token) and literal keys by equality; the readers bind parameters only on named hits and hand out an item only from a matching, non-empty node; recursion continues behind the separator; both sides use path.Clean; ServeHTTP runs the found handler only on a Search hit in the tree of the request's method with the path variables attached, answers 404 exactly when methodsAllowed found nothing and otherwise sets Allow (to the computed list) before WriteHeader(405); methodsAllowed skips the request's own method and lists exactly the methods whose tree matches; engine.bindRoute passes (Method, Path, handler) in that order; pathvar.Vars reads the key WithVars writes."
 	r.NotDecided = "soundness/completeness of the matcher over all route tables × paths (back-tracking, parameter binding across levels): equivalences over unbounded tables; not decided."
